@@ -138,7 +138,7 @@ int main(void) {
                 mocked_d(A);
                 clear_mocks();
             }
-        } else if (!strncmp(line, "msgint ", 7) || !strncmp(line, "msgstr ", 7) || !strncmp(line, "msgleg ", 7) || !strncmp(line, "msgmock ", 8)
+        } else if (!strncmp(line, "msgint ", 7) || !strncmp(line, "msgstr ", 7) || !strncmp(line, "msgleg ", 7) || !strncmp(line, "msgmock ", 8) || !strncmp(line, "msgmem ", 7)
                    || !strncmp(line, "mckint ", 7) || !strncmp(line, "mckstr ", 7)) {
             /* C10: the failure message exactly as the text reporter's vprintf would expand it */
             static char kind[64], hx1[1 << 15], hx2[1 << 15], hx3[1 << 15], hx4[1 << 15];
@@ -173,6 +173,20 @@ int main(void) {
                               : !strcmp(kind, "ends") ? create_ends_with_string_constraint(ev, en) : create_does_not_end_with_string_constraint(ev, en);
                 if (via_mock) { expect_(get_test_reporter(), "mocked_s", "f", 1, when_("p", c), (Constraint *)0); mocked_s((const char *)t3); clear_mocks(); }
                 else assert_core_("f", 1, (const char *)t1, (intptr_t)(const char *)t3, c);
+            } else if (!strncmp(line, "msgmem ", 7)) {
+                /* contents constraints: "msgmem <equal|notequal> <hex actual text> <hex expected text> <size> <hex actual|-> <hex expected|->"
+                   ("-" is a NULL pointer; the size may be 0 or negative: then the message says why the comparison cannot be made) */
+                long size = 0;
+                sscanf(line, "msgmem %63s %32767s %32767s %ld %32767s %32767s", kind, hx1, hx2, &size, hx3, hx4);
+                unhex(hx1, t1); unhex(hx2, t2);
+                size_t na = !strcmp(hx3, "-") ? 0 : unhex(hx3, t3), ne = !strcmp(hx4, "-") ? 0 : unhex(hx4, t4);
+                unsigned char *ab = strcmp(hx3, "-") ? (unsigned char *)malloc(na ? na : 1) : NULL, *eb = strcmp(hx4, "-") ? (unsigned char *)malloc(ne ? ne : 1) : NULL;
+                if (ab) memcpy(ab, t3, na);
+                if (eb) memcpy(eb, t4, ne);
+                Constraint *c = !strcmp(kind, "equal") ? create_equal_to_contents_constraint(eb, (size_t)size, (const char *)t2)
+                                                       : create_not_equal_to_contents_constraint(eb, (size_t)size, (const char *)t2);
+                assert_core_("f", 1, (const char *)t1, (intptr_t)ab, c);
+                free(ab); free(eb);
             } else if (!strncmp(line, "msgleg ", 7)) {
                 sscanf(line, "msgleg %63s %32767s %32767s %32767s", kind, hx1, hx3, hx4);
                 unhex(hx1, t1); unhex(hx3, t3); unhex(hx4, t4);
